@@ -37,7 +37,7 @@ pub static PROP: Prop = Prop {
     cases: |_| GRID,
     budget_s: |t| t.pick(400, 1500),
     run,
-    min_nontrivial: 1000,
+    min_nontrivial: 300,
     required_counters: &["nts_send", "nts_reset", "plain_send", "mixed_timer"],
     exhaustive: true,
     crash_is_violation: true,
